@@ -59,6 +59,8 @@ pub struct PkiSigner {
     pub ocsp: Option<Vec<u8>>,
     pub work: PathBuf,
     pub log: std::sync::Arc<Mutex<TsaLog>>,
+    /// digest algorithm of the TSA's own CMS signature
+    pub tsa_digest: &'static str,
 }
 
 pub fn ee_signer(ee: &str) -> Result<c2pa::BoxedSigner, String> {
@@ -68,7 +70,7 @@ pub fn ee_signer(ee: &str) -> Result<c2pa::BoxedSigner, String> {
 }
 
 /// `openssl ts -reply` for `query` by TSA `name` ("tsa" | "tsa2"), serial kept in `work`.
-pub fn ts_reply(name: &str, query: &[u8], work: &Path) -> Result<Vec<u8>, String> {
+pub fn ts_reply(name: &str, query: &[u8], work: &Path, signer_digest: &str) -> Result<Vec<u8>, String> {
     let _ = std::fs::create_dir_all(work);
     let cnf = std::fs::read_to_string(pool().join(format!("{name}.cnf"))).map_err(|e| e.to_string())?;
     let serial = work.join(format!("{name}.serial"));
@@ -76,6 +78,8 @@ pub fn ts_reply(name: &str, query: &[u8], work: &Path) -> Result<Vec<u8>, String
         let _ = std::fs::write(&serial, "01\n");
     }
     let cnf = cnf.replace(&pool().join(format!("{name}.serial")).to_string_lossy().to_string(), &serial.to_string_lossy());
+    // the digest the TSA signs its SignerInfo with (the pool's configuration says sha256)
+    let cnf = cnf.replace("signer_digest=sha256", &format!("signer_digest={signer_digest}"));
     let cnf_path = work.join(format!("{name}.cnf"));
     std::fs::write(&cnf_path, cnf).map_err(|e| e.to_string())?;
     let q = work.join("q.tsq");
@@ -157,7 +161,7 @@ impl Signer for PkiSigner {
             Err(e) => return Some(Err(e)),
         };
         let now = std::time::SystemTime::now().duration_since(std::time::UNIX_EPOCH).map(|d| d.as_secs() as i64).unwrap_or(0);
-        match ts_reply(tsa_name, &body, &self.work) {
+        match ts_reply(tsa_name, &body, &self.work, self.tsa_digest) {
             Ok(mut resp) => {
                 if let Tsa::Flipped(k) = self.tsa {
                     if let Some(p) = flip_position(&resp, k) {
